@@ -391,9 +391,30 @@ def r6_registration(rep, ctx, RID="C12.R6"):
         rep.bad(RID, "AddCategory:validating-branch", "no `default_value is None` test separates derived defaults from given ones with the assertions on the 'given' side", fn=fn)
         return
     T, given_lab = validating
+    P_LIM = {("param", fn.params.index(k_), k_): k_[:3] for k_ in ("min_value", "max_value")}
+
     def derived(st):
+        # a default derived from the limits themselves (or a constant), possibly through the result variable of an
+        # extracted helper: every value it can hold is a constant or one of the two limit arguments
         v = st.value
-        return isinstance(v, ast.Constant) or (isinstance(v, ast.Name) and v.id in ("min_value", "max_value"))
+        if isinstance(v, ast.Constant) or (isinstance(v, ast.Name) and v.id in ("min_value", "max_value")):
+            return True
+        if not isinstance(v, ast.Name):
+            return False
+        # follow plain copies back to the statements that chose the value
+        seen_, todo_, leaves = set(), [v.id], []
+        while todo_:
+            nm = todo_.pop()
+            if nm in seen_:
+                continue
+            seen_.add(nm)
+            for st2 in own_statements(fn.node):
+                if isinstance(st2, ast.Assign) and any(isinstance(t_, ast.Name) and t_.id == nm for t_ in st2.targets):
+                    if isinstance(st2.value, ast.Name) and st2.value.id not in ("min_value", "max_value"):
+                        todo_.append(st2.value.id)
+                    else:
+                        leaves.append(st2)
+        return bool(leaves) and all(isinstance(l_.value, ast.Constant) or (isinstance(l_.value, ast.Name) and l_.value.id in ("min_value", "max_value")) for l_ in leaves)
     dv_nodes = {cfg.node_of(st): st for st in defs["default_value"]}
     unsafe = [("the default_value argument", cfg.ENTRY)] + [("`%s` (line %d)" % (norm(ast.unparse(st)), st.lineno), n) for n, st in dv_nodes.items() if not derived(st)]
     given_edges = {(T, b, l) for (b, l) in cfg.succ[T] if l == given_lab}
@@ -420,9 +441,25 @@ def r6_registration(rep, ctx, RID="C12.R6"):
         e = cfg.ast[nid]
         if ast.unparse(e) in ("is_min_exclusive", "is_max_exclusive") and nid in cfg.reach(T, start_edges={"T" if given_lab == "F" else "F"}):
             rep.check(cfg.must_raise_from([(nid, "T")]), RID, "AddCategory:exclusive-needs-default:%s" % ast.unparse(e), "an exclusive limit without a given default must-raise", "with %s and no default value a default equal to the limit is derived" % ast.unparse(e), fn=fn)
+    limit_sites = []
     for st in defs["default_value"]:
         if isinstance(st.value, ast.Name) and st.value.id in ("min_value", "max_value"):
-            kind = st.value.id[:3]
+            limit_sites.append((st, st.value.id[:3]))
+        elif isinstance(st.value, ast.Name):
+            seen_, todo_ = set(), [st.value.id]
+            while todo_:
+                nm = todo_.pop()
+                if nm in seen_:
+                    continue
+                seen_.add(nm)
+                for st2 in own_statements(fn.node):
+                    if isinstance(st2, ast.Assign) and any(isinstance(t_, ast.Name) and t_.id == nm for t_ in st2.targets) and isinstance(st2.value, ast.Name):
+                        if st2.value.id in ("min_value", "max_value"):
+                            limit_sites.append((st2, st2.value.id[:3]))
+                        else:
+                            todo_.append(st2.value.id)
+    for st, kind in limit_sites:
+        if True:
             dom = cfg.dominating_edges(cfg.node_of(st))
             ok = any(cfg.kind[nid] == "test" and ast.unparse(cfg.ast[nid]) == "is_%s_exclusive" % kind and lab == "F" for (nid, lab) in dom)
             rep.check(ok, RID, "AddCategory:derived-from-inclusive-%s" % kind, "a default is derived from the %s limit only when that limit is inclusive" % kind,
